@@ -15,6 +15,9 @@ DP == \A n \in TS : LET out == DPImpl(ls, n, D) IN
         /\ Base(ls, out) /\ (Len(ls) >= 2 => DPBound(ls, out, n, D))
         /\ DPImpl(out, n, D) = out
         /\ \A m \in TS : m > n => IsSubseq(DPImpl(ls, m, D), out)
+\* whichever of several exactly equally far vertices is split at: still a subsequence within the bound, and DPImpl is one
+DPAll == \A n \in TS : /\ DPImpl(ls, n, D) \in DPImplResults(ls, n, D)
+                        /\ \A out \in DPImplResults(ls, n, D) : Base(ls, out) /\ (Len(ls) >= 2 => DPBound(ls, out, n, D))
 Radial == \A n \in TS : LET out == RadialImpl(ls, n, D) IN Base(ls, out) /\ RadialSpacing(out, n, D)
 Vis == \A an \in TS : \A keep \in 2..4 :
          \A r \in VisImplResults(ls, an, D, keep) :
